@@ -28,12 +28,14 @@ COQ_MODULES = ["GenoTable", "C13_Model", "C13_Check", "C13_Proofs", "C13_Sound",
 PROPERTY_MODULE = "C12_Property"
 ALLOWED_AXIOMS = []
 RULE = (
-    "histories of 2-9 operations (40% of them targeted: build an index, change the contents with one chosen mutator - "
+    "histories of 2-9 operations on an object AND the copies its subsets return (switching between them; streams: "
+    "random with switches, permuted = index -> in-place subset keeping every ID reordered -> look-ups, two-objects = "
+    "index -> copy of one axis -> change one object -> look-ups on the other; and targeted: build an index, change the contents with one chosen mutator - "
     "re-read, in-place subset, QC discard that does discard, append, sort - then look IDs up) over a generated small file (3-4 samples x 3-5 variants VCF.gz+tbi / PGEN / "
     "VCF with POP; 3-4 x 2-3 .pheno/.covar; 3-6 record .hap), first operation a read; requests mix present IDs, IDs "
     "dropped by an earlier step and IDs never present. Non-trivial = the history contains a by-ID operation (subset / "
     "transform) that comes after an operation which changed the contents since the index was last built (re-read, "
-    "in-place subset, discard, append, sort). Distinct = distinct canonical JSON."
+    "in-place subset, discard, append, sort), or a by-ID operation on one object after its copy/parent was changed. Distinct = distinct canonical JSON."
 )
 TRUSTED = [
     "cyvcf2 / pgenlib / csv readers: the file content the model starts from is what a fresh full read() returns",
@@ -134,8 +136,8 @@ def ids(prefix, l):
     return None if l is None else [f"{prefix}{x}" for x in l]
 
 
-def gapply(g, op, is_anc):
-    """returns the observation {'state':..., 'ret':...}"""
+def gapply(g, op, is_anc, sink=None):
+    """returns the observation {'state':..., 'ret':...}; a returned copy is appended to sink"""
     k = op["op"]
     ret = None
     if k == "read":
@@ -147,6 +149,8 @@ def gapply(g, op, is_anc):
         r = g.subset(samples=ss, variants=vs, inplace=op["inplace"])
         if not op["inplace"]:
             ret = gobserve(r, is_anc)
+            if sink is not None:
+                sink.append(r)
     elif k == "index":
         g.index(samples=op["s"], variants=op["v"])
     elif k == "missing":
@@ -171,6 +175,13 @@ def guarded(fn):
 
 
 def gop_term(op):
+    k = op["op"]
+    if k == "switch":
+        return f"XSwitch {op['k']}%nat"
+    return f"XOn ({gop_term1(op)})"
+
+
+def gop_term1(op):
     k = op["op"]
     if k == "read":
         return f"GRead {optzl(op['ss'])} {optzl(op['vs'])}"
@@ -202,6 +213,50 @@ def request(rng, universe, present, absent_extra):
         if x not in out or rng.random() < 0.04:
             out.append(x)
     return out
+
+
+def valid_switches(ops, copying=("subset",)):
+    """every switch addresses object 0 or a copy made by an earlier copying subset"""
+    made = 0
+    for op in ops:
+        if op["op"] == "switch":
+            if not 0 <= op["k"] <= made:
+                return False
+        elif op["op"] in copying and not op.get("inplace", False):
+            made += 1
+    return True
+
+
+def add_switches(rng, ops, p=0.25):
+    """let a random history wander between the object and the copies made so far"""
+    out, made = [], 0
+    for op in ops:
+        if made and rng.random() < p:
+            out.append({"op": "switch", "k": int(rng.integers(0, made + 1))})
+        out.append(op)
+        if op["op"] == "subset" and not op.get("inplace", False):
+            made += 1
+    return out
+
+
+def other_object_lookup(ops):
+    """a by-ID operation on one object after another object of the same history was changed"""
+    focus, changed = 0, set()
+    made = 0
+    for op in ops:
+        k = op["op"]
+        if k == "switch":
+            focus = op["k"]
+        elif k == "subset":
+            if changed - {focus} and made:
+                return True
+            if op.get("inplace"):
+                changed.add(focus)
+            else:
+                made += 1
+        elif k in ("read", "missing", "biallelic", "maf", "append"):
+            changed.add(focus)
+    return False
 
 
 def by_id_after_change(ops, by_id, changing):
@@ -349,15 +404,90 @@ class Geno(Relation):
         first = {"op": "read", "ss": None, "vs": None}
         return [first, build, mut] + look
 
+    def permuted(self, rng, t):
+        """build an index, in-place subset that keeps EVERY current ID but reorders them, look IDs up"""
+        S = list(t["samples"])
+        V = [v[0] for v in t["variants"]]
+        ops = [{"op": "read", "ss": None, "vs": None}]
+        if rng.random() < 0.3:   # start from fewer IDs so that "all current IDs" is not "all file IDs"
+            ops[0] = self._read(rng, S, V)
+            S = [x for x in S if ops[0]["ss"] is None or x in ops[0]["ss"]]
+            V = [x for x in V if ops[0]["vs"] is None or x in ops[0]["vs"]]
+        ops.append([{"op": "index", "s": True, "v": True},
+                    {"op": "subset", "ss": [int(rng.choice(S))], "vs": [int(rng.choice(V))], "inplace": False}][int(rng.integers(0, 2))])
+
+        def perm(l):
+            l = list(l)
+            if len(l) < 2:
+                return l
+            while True:
+                q = [int(x) for x in rng.permutation(l)]
+                if q != l:
+                    return q
+
+        which = rng.random()
+        ss = perm(S) if which < 0.65 else None
+        vs = perm(V) if which > 0.35 else None
+        ops.append({"op": "subset", "ss": ss, "vs": vs, "inplace": True})
+        for _ in range(int(rng.integers(1, 3))):
+            q = {"op": "subset", "ss": request(rng, S, S, 8) if (ss is not None or rng.random() < 0.3) else None,
+                 "vs": request(rng, V, V, 8) if (vs is not None or rng.random() < 0.3) else None,
+                 "inplace": bool(rng.random() < 0.3)}
+            ops.append(q)
+        return ops
+
+    def shared(self, rng, cls, t):
+        """index the object, take a copy that subsets ONE axis, change one of the two objects,
+        look IDs up on the other one (on the axis the copy did not subset, and on the other)"""
+        S = list(t["samples"])
+        V = [v[0] for v in t["variants"]]
+        n, p = len(S), len(V)
+        ops = [{"op": "read", "ss": None, "vs": None}, {"op": "index", "s": True, "v": True}]
+        by_samples = rng.random() < 0.5
+        ops.append({"op": "subset", "ss": request(rng, S, S, 8) if by_samples else None,
+                    "vs": None if by_samples else request(rng, V, V, 8), "inplace": False})
+        change_copy = rng.random() < 0.5
+        if change_copy:
+            ops.append({"op": "switch", "k": 1})
+        muts = ["read", "inplace", "perm"]
+        if cls not in ("GenotypesPLINK", "GenotypesAncestry") and not change_copy:
+            muts += ["biallelic", "missing"]
+        m = str(rng.choice(muts))
+        if m == "read":
+            ops.append(self._read(rng, S, V))
+        elif m == "inplace":
+            ops.append({"op": "subset", "ss": request(rng, S, S, 8) if rng.random() < 0.5 else None,
+                        "vs": request(rng, V, V, 8), "inplace": True})
+        elif m == "perm":
+            ops.append({"op": "subset", "ss": [int(x) for x in rng.permutation(S)] if rng.random() < 0.5 else None,
+                        "vs": [int(x) for x in rng.permutation(V)], "inplace": True})
+        elif m == "missing":
+            t["rows"][int(rng.integers(0, n))][int(rng.integers(0, p))] = [255, 255, 0]
+            ops.append({"op": "missing"})
+        else:
+            t["rows"][int(rng.integers(0, n))][int(rng.integers(0, p))][0] = 2
+            ops.append({"op": "biallelic"})
+        ops.append({"op": "switch", "k": 0 if change_copy else 1})
+        for _ in range(int(rng.integers(1, 3))):
+            ops.append({"op": "subset", "ss": request(rng, S, S, 8) if rng.random() < 0.6 else None,
+                        "vs": request(rng, V, V, 8), "inplace": False})
+        return ops
+
     def generate(self, rng, n, tier):
         out = []
         for i in range(n):
             cls = GCLASSES[int(rng.integers(0, 4))]
             t = self.gen_file(rng, cls)
-            if rng.random() < 0.4:
-                out.append({"cls": cls, "file": t, "ops": self.targeted(rng, cls, t)})
+            u = rng.random()
+            if u < 0.30:
+                ops, kind = self.targeted(rng, cls, t), "targeted"
+            elif u < 0.45:
+                ops, kind = self.permuted(rng, t), "permuted"
+            elif u < 0.60:
+                ops, kind = self.shared(rng, cls, t), "two-objects"
             else:
-                out.append({"cls": cls, "file": t, "ops": self.gen_ops(rng, t)})
+                ops, kind = add_switches(rng, self.gen_ops(rng, t)), "random"
+            out.append({"cls": cls, "file": t, "ops": ops, "kind": kind})
         return out
 
     def exhaustive(self, tier):
@@ -376,12 +506,17 @@ class Geno(Relation):
             {"op": "subset", "ss": None, "vs": [2, 0], "inplace": True},
             {"op": "subset", "ss": [2, 0], "vs": None, "inplace": True},
             {"op": "index", "s": True, "v": True},
+            {"op": "subset", "ss": [2, 0, 1], "vs": None, "inplace": True},
+            {"op": "switch", "k": 1},
+            {"op": "switch", "k": 0},
         ]
         out = []
         depth = 3 if tier == "thorough" else 2
         for k in range(1, depth + 1):
             for seq in itertools.product(alpha, repeat=k):
-                out.append({"cls": "GenotypesVCF", "file": t, "ops": [alpha[0]] + list(seq)})
+                ops = [alpha[0]] + list(seq)
+                if valid_switches(ops):
+                    out.append({"cls": "GenotypesVCF", "file": t, "ops": ops, "kind": "exhaustive"})
         return out
 
     def run_impl(self, inp):
@@ -397,17 +532,22 @@ class Geno(Relation):
             full = cls(path, **kw)
             full.read()
             filetab = gobserve(full, is_anc)
-            g = cls(path, **kw)
+            objs = [cls(path, **kw)]   # the object and the copies its subsets returned
+            g = objs[0]
             steps = []
             for op in inp["ops"]:
                 fresh = None
+                if op["op"] == "switch":
+                    g = objs[op["k"]]
+                    steps.append({"obs": guarded(lambda: {"state": gobserve(g, is_anc), "ret": None}), "fresh": None})
+                    continue
                 if op["op"] == "read":
                     fo = cls(path, **kw)
                     fresh = guarded(lambda: gapply(fo, op, is_anc))
                 elif op["op"] == "subset":
                     fo = gfresh_copy(g, is_anc)
                     fresh = guarded(lambda: gapply(fo, op, is_anc))
-                o = guarded(lambda: gapply(g, op, is_anc))
+                o = guarded(lambda: gapply(g, op, is_anc, objs))
                 steps.append({"obs": o, "fresh": fresh})
                 if "err" in o:
                     break
@@ -428,10 +568,13 @@ class Geno(Relation):
         return sh.wrap(f"mkgcase {anc} false {sh(obs['file'])} {L.lst(parts)}")
 
     def nontrivial(self, inp, obs):
-        return by_id_after_change(inp["ops"], {"subset"}, {"read", "missing", "biallelic", "maf"})
+        return (by_id_after_change(inp["ops"], {"subset"}, {"read", "missing", "biallelic", "maf"})
+                or other_object_lookup(inp["ops"]))
 
     def classes(self, inp, obs):
-        out = [inp["cls"], f"len={len(inp['ops'])}"]
+        out = [inp["cls"], f"len={len(inp['ops'])}", f"stream={inp.get('kind', 'corpus')}"]
+        if other_object_lookup(inp["ops"]):
+            out.append("lookup-after-other-object-changed")
         out += sorted({op["op"] + ("-inplace" if op.get("inplace") else "") for op in inp["ops"]})
         if isinstance(obs, dict) and "steps" in obs:
             for st in obs["steps"]:
@@ -443,6 +586,11 @@ class Geno(Relation):
         return out
 
     def shrink(self, inp):
+        for c in self._shrink(inp):
+            if valid_switches(c["ops"]):
+                yield c
+
+    def _shrink(self, inp):
         ops = inp["ops"]
         for j in range(1, len(ops)):
             yield dict(inp, ops=ops[:j] + ops[j + 1:])
@@ -472,11 +620,13 @@ class Geno(Relation):
             return "harness-level failure"
         reread = False
         seen_lookup = False
-        for op, st in zip(inp["ops"], obs["steps"]):
+        for j, (op, st) in enumerate(zip(inp["ops"], obs["steps"])):
             if st["fresh"] is not None and st["fresh"] != st["obs"]:
                 what = "wrong exception" if "err" in st["obs"] else "wrong rows/columns"
                 if op["op"] == "read":
                     return "re-read object differs from a freshly read one"
+                if other_object_lookup(inp["ops"][:j + 1]):
+                    return f"by-ID subset on one object after its copy/parent was changed differs from a fresh object's ({what})"
                 return f"by-ID subset after {'a re-read' if reread else 'earlier operations'} differs from a fresh object's ({what})"
             if op["op"] == "read" and seen_lookup:
                 reread = True
@@ -518,7 +668,7 @@ def pfresh_copy(p):
     return f
 
 
-def papply(p, op):
+def papply(p, op, sink=None):
     k = op["op"]
     ret = None
     if k == "read":
@@ -529,6 +679,8 @@ def papply(p, op):
         r = p.subset(samples=ss, names=ns, inplace=op["inplace"])
         if not op["inplace"]:
             ret = pobserve(r)
+            if sink is not None:
+                sink.append(r)
     elif k == "index":
         p.index(samples=op["s"], names=op["n"])
     elif k == "missing":
@@ -554,6 +706,13 @@ class PShared(Shared):
 
 
 def pop_term(op):
+    k = op["op"]
+    if k == "switch":
+        return f"XSwitch {op['k']}%nat"
+    return f"XOn ({pop_term1(op)})"
+
+
+def pop_term1(op):
     k = op["op"]
     if k == "read":
         return f"PRead {optzl(op['ss'])}"
@@ -622,7 +781,67 @@ class Pheno(Relation):
                 else:
                     ops.append({"op": "append", "name": nxt, "col": None})
                     nxt += 1
-            if rng.random() < 0.4:
+            kind = "random"
+            u0 = rng.random()
+            if u0 >= 0.65:
+                ops = add_switches(rng, ops)
+            elif u0 < 0.15:
+                kind = "permuted"
+                # build an index, in-place subset keeping EVERY current ID but reordered, look IDs up
+                def perm(l):
+                    l = list(l)
+                    while True:
+                        q = [int(x) for x in rng.permutation(l)]
+                        if q != l or len(l) < 2:
+                            return q
+                which = rng.random()
+                pss = perm(S) if which < 0.65 else None
+                pns = perm(N) if which > 0.35 else None
+                build = [{"op": "index", "s": True, "n": True},
+                         {"op": "subset", "ss": [int(rng.choice(S))], "ns": [int(rng.choice(N))], "inplace": False}][int(rng.integers(0, 2))]
+                ops = [{"op": "read", "ss": None}, build, {"op": "subset", "ss": pss, "ns": pns, "inplace": True}]
+                for _ in range(int(rng.integers(1, 3))):
+                    ops.append({"op": "subset", "ss": request(rng, S, S, 8) if (pss is not None or rng.random() < 0.3) else None,
+                                "ns": request(rng, N, N, 9) if (pns is not None or rng.random() < 0.3) else None,
+                                "inplace": bool(rng.random() < 0.3)})
+            elif u0 < 0.35:
+                kind = "two-objects"
+                # names and/or samples indexed on the parent; a copy that subsets ONE axis; one of the two
+                # objects (or both) changes - append, in-place subset, re-read, discard; by-ID look-ups on the OTHER
+                build = [{"op": "index", "s": True, "n": True}, {"op": "index", "s": False, "n": True},
+                         {"op": "subset", "ss": None, "ns": [int(rng.choice(N))], "inplace": False}][int(rng.integers(0, 3))]
+                ops = [{"op": "read", "ss": None}, build]
+                made = 1 if build["op"] == "subset" else 0
+                by_samples = rng.random() < 0.7
+                ops.append({"op": "subset", "ss": request(rng, S, S, 8) if by_samples else None,
+                            "ns": None if by_samples else request(rng, N, N, 9), "inplace": False})
+                made += 1
+                copy_k = made
+                first, second = (copy_k, 0) if rng.random() < 0.5 else (0, copy_k)
+
+                def change(name):
+                    m = str(rng.choice(["append", "append", "append", "inplace", "read", "missing"]))
+                    if m == "append":
+                        return {"op": "append", "name": name, "col": None}
+                    if m == "inplace":
+                        return {"op": "subset", "ss": None, "ns": [int(x) for x in rng.permutation(N)][:int(rng.integers(1, nn + 1))], "inplace": True}
+                    if m == "read":
+                        return {"op": "read", "ss": sorted({int(rng.choice(S)), int(rng.choice(S))})}
+                    return {"op": "missing"}
+
+                ops += [{"op": "switch", "k": first}, change(5)]
+                if rng.random() < 0.5:
+                    ops += [{"op": "switch", "k": second}, change(6)]
+                else:
+                    ops += [{"op": "switch", "k": second}]
+                for _ in range(int(rng.integers(1, 3))):
+                    ops.append({"op": "subset", "ss": request(rng, S, S, 8) if rng.random() < 0.3 else None,
+                                "ns": request(rng, N + [5, 6], N + [5, 6], 9), "inplace": False})
+                if rng.random() < 0.5:
+                    ops += [{"op": "switch", "k": first},
+                            {"op": "subset", "ss": None, "ns": request(rng, N + [5, 6], N + [5, 6], 9), "inplace": False}]
+            elif u0 < 0.65:
+                kind = "targeted"
                 # build an index, change the contents with one chosen mutator, look IDs up
                 build = [{"op": "index", "s": True, "n": True},
                          {"op": "subset", "ss": [int(rng.choice(S))], "ns": [int(rng.choice(N))], "inplace": False}][int(rng.integers(0, 2))]
@@ -647,7 +866,7 @@ class Pheno(Relation):
                         q["ss"] = list(S)
                 ops = [{"op": "read", "ss": None}, build, mut] + look
             out.append({"cls": ["Phenotypes", "Covariates"][int(rng.integers(0, 2))], "file": f, "ops": ops,
-                        "seed": int(rng.integers(0, 2**31))})
+                        "seed": int(rng.integers(0, 2**31)), "kind": kind})
         return out
 
     def run_impl(self, inp):
@@ -664,10 +883,16 @@ class Pheno(Relation):
                 for s, r in zip(f["samples"], f["rows"]):
                     fh.write(f"s{s}\t" + "\t".join(str(x) for x in r) + "\n")
             cls = pclass(inp["cls"])
-            p = cls(path, log=quiet_log())
+            objs = [cls(path, log=quiet_log())]   # the object and the copies its subsets returned
+            p = objs[0]
             rng = np.random.default_rng(inp.get("seed", 0))
             steps, ops_done = [], []
             for op in inp["ops"]:
+                if op["op"] == "switch":
+                    p = objs[op["k"]]
+                    steps.append({"obs": guarded(lambda: {"state": pobserve(p), "ret": None}), "fresh": None})
+                    ops_done.append(op)
+                    continue
                 if op["op"] == "append" and op.get("col") is None:
                     # a column of the current length (3% of the time one too long: ValueError)
                     n = len(p.samples) + (1 if rng.random() < 0.03 else 0)
@@ -679,7 +904,7 @@ class Pheno(Relation):
                 elif op["op"] == "subset":
                     fo = pfresh_copy(p)
                     fresh = guarded(lambda: papply(fo, op))
-                o = guarded(lambda: papply(p, op))
+                o = guarded(lambda: papply(p, op, objs))
                 steps.append({"obs": o, "fresh": fresh})
                 ops_done.append(op)
                 if "err" in o:
@@ -700,10 +925,13 @@ class Pheno(Relation):
         return sh.wrap(f"mkpcase false {sh(inp['file'])} {L.lst(parts)}")
 
     def nontrivial(self, inp, obs):
-        return by_id_after_change(inp["ops"], {"subset"}, {"read", "missing", "append"})
+        return (by_id_after_change(inp["ops"], {"subset"}, {"read", "missing", "append"})
+                or other_object_lookup(inp["ops"]))
 
     def classes(self, inp, obs):
-        out = [inp["cls"], f"len={len(inp['ops'])}"]
+        out = [inp["cls"], f"len={len(inp['ops'])}", f"stream={inp.get('kind', 'corpus')}"]
+        if other_object_lookup(inp["ops"]):
+            out.append("lookup-after-other-object-changed")
         out += sorted({op["op"] + ("-inplace" if op.get("inplace") else "") for op in inp["ops"]})
         if isinstance(obs, dict) and "steps" in obs:
             for st in obs["steps"]:
@@ -712,6 +940,11 @@ class Pheno(Relation):
         return out
 
     def shrink(self, inp):
+        for c in self._shrink(inp):
+            if valid_switches(c["ops"]):
+                yield c
+
+    def _shrink(self, inp):
         ops = inp["ops"]
         for j in range(1, len(ops)):
             yield dict(inp, ops=ops[:j] + ops[j + 1:])
@@ -735,11 +968,13 @@ class Pheno(Relation):
             return "pheno harness-level failure"
         reread = False
         seen_lookup = False
-        for op, st in zip(obs["ops"], obs["steps"]):
+        for j, (op, st) in enumerate(zip(obs["ops"], obs["steps"])):
             if st["fresh"] is not None and st["fresh"] != st["obs"]:
                 what = "wrong exception" if "err" in st["obs"] else "wrong rows/columns"
                 if op["op"] == "read":
                     return "pheno re-read object differs from a freshly read one"
+                if other_object_lookup(obs["ops"][:j + 1]):
+                    return f"pheno by-ID subset on one object after its copy/parent was changed differs from a fresh object's ({what})"
                 return f"pheno by-ID subset after {'a re-read' if reread else 'earlier operations'} differs from a fresh object's ({what})"
             if op["op"] == "read" and seen_lookup:
                 reread = True
